@@ -419,6 +419,136 @@ func c11Scenarios() []c11Scenario {
 			}
 			return
 		})})
+	// ---- S6 identifiers (C12 under concurrency) ----
+	sc = append(sc, c11Scenario{name: "S6a:ids:nextlabel||nextlabel", setup: lmWorld,
+		bodies: func(w *c11World) []func() {
+			return []func(){func() { w.resp[0] = vsrv.Post("node/"+w.root+"/lm/nextlabel/2", nil) }, func() { w.resp[1] = vsrv.Post("node/"+w.root+"/lm/nextlabel/3", nil) }}
+		},
+		verdict: func(w *c11World) (bad []string) {
+			type rng struct{ Start, End uint64 }
+			var r [2]rng
+			for i := 0; i < 2; i++ {
+				if !acked(w.resp[i]) {
+					return
+				}
+				json.Unmarshal(w.resp[i].Body, &r[i])
+			}
+			if r[0].Start <= r[1].End && r[1].Start <= r[0].End {
+				bad = append(bad, fmt.Sprintf("label-ranges-overlap\ttwo concurrent nextlabel requests were given overlapping label ranges %v and %v", r[0], r[1]))
+			}
+			for i, want := range []uint64{2, 3} {
+				if r[i].End-r[i].Start+1 != want || r[i].Start <= 5 {
+					bad = append(bad, fmt.Sprintf("label-range-wrong\tnextlabel/%d answered %s (existing labels are 1..5)", want, w.resp[i]))
+				}
+			}
+			var ml struct{ MaxLabel uint64 }
+			x := vsrv.Get("node/" + w.root + "/lm/maxlabel")
+			json.Unmarshal(x.Body, &ml)
+			if hi := r[0].End; ml.MaxLabel < hi || ml.MaxLabel < r[1].End {
+				bad = append(bad, fmt.Sprintf("maxlabel-behind\tafter nextlabel ranges %v and %v were handed out, maxlabel reports %d", r[0], r[1], ml.MaxLabel))
+			}
+			nx := vsrv.Post("node/"+w.root+"/lm/nextlabel/1", nil)
+			var r3 rng
+			json.Unmarshal(nx.Body, &r3)
+			if nx.OK() && (r3.Start <= r[0].End || r3.Start <= r[1].End) {
+				bad = append(bad, fmt.Sprintf("label-reissued\ta later nextlabel returned %v, not above the ranges %v and %v handed out concurrently before", r3, r[0], r[1]))
+			}
+			return
+		}})
+	sc = append(sc, c11Scenario{name: "S6b:ids:newinstance||newinstance", setup: func() (*c11World, error) {
+		root, err := vsrv.NewRepo()
+		return &c11World{root: root, nodes: map[string]string{}, resp: make([]vsrv.Resp, 4)}, err
+	},
+		bodies: func(w *c11World) []func() {
+			mk := func(i int, name string) func() {
+				return func() {
+					w.resp[i] = vsrv.PostS("repo/"+w.root+"/instance", fmt.Sprintf(`{"typename":"keyvalue","dataname":%q}`, name))
+				}
+			}
+			return []func(){mk(0, "a"), mk(1, "b")}
+		},
+		verdict: func(w *c11World) (bad []string) {
+			x := vsrv.Get("repo/" + w.root + "/info")
+			var info struct {
+				DataInstances map[string]struct {
+					Base struct {
+						ID       uint32
+						DataUUID string
+					}
+				}
+			}
+			json.Unmarshal(x.Body, &info)
+			for i, name := range []string{"a", "b"} {
+				if _, ok := info.DataInstances[name]; acked(w.resp[i]) && !ok {
+					bad = append(bad, fmt.Sprintf("instance-lost\tPOST instance %q was acknowledged (%s) but the repo does not list it", name, w.resp[i]))
+				}
+			}
+			a, okA := info.DataInstances["a"]
+			b, okB := info.DataInstances["b"]
+			if okA && okB {
+				ids := map[string]string{}
+				for _, r := range datastore.VerifDump(w.root).Repos {
+					for _, in := range r.Instances { // "name:type:instanceID"
+						p := strings.Split(in, ":")
+						if prev, dup := ids[p[len(p)-1]]; dup {
+							bad = append(bad, fmt.Sprintf("instance-id-shared\tinstances %s and %s created concurrently share an instance id: their keys occupy the same key space", prev, in))
+						}
+						ids[p[len(p)-1]] = in
+					}
+				}
+				if a.Base.DataUUID == b.Base.DataUUID {
+					bad = append(bad, "data-uuid-shared\ttwo instances created concurrently share a data uuid")
+				}
+				// isolation: a key written to one must not be readable from the other
+				vsrv.PostS("node/"+w.root+"/a/key/k", "in-a")
+				if y := vsrv.Get("node/" + w.root + "/b/key/k"); y.Code == 200 {
+					bad = append(bad, "instances-alias\ta key written to instance a reads back from instance b")
+				}
+			}
+			return
+		}})
+	sc = append(sc, c11Scenario{name: "S6c:ids:newrepo||newrepo", setup: func() (*c11World, error) {
+		root, err := vsrv.NewRepo()
+		return &c11World{root: root, nodes: map[string]string{}, resp: make([]vsrv.Resp, 4)}, err
+	},
+		bodies: func(w *c11World) []func() {
+			mk := func(i int) func() {
+				return func() { w.resp[i] = vsrv.PostS("repos", fmt.Sprintf(`{"alias":"r%d","description":"d"}`, i)) }
+			}
+			return []func(){mk(0), mk(1)}
+		},
+		verdict: func(w *c11World) (bad []string) {
+			var roots []string
+			for i := 0; i < 2; i++ {
+				var m struct{ Root string }
+				json.Unmarshal(w.resp[i].Body, &m)
+				if acked(w.resp[i]) {
+					roots = append(roots, m.Root)
+					if x := vsrv.Get("repo/" + m.Root + "/info"); !x.OK() {
+						bad = append(bad, fmt.Sprintf("repo-lost\tPOST repos was acknowledged with root %s but the repo cannot be read: %s", m.Root, x))
+					}
+				}
+			}
+			if len(roots) == 2 && roots[0] == roots[1] {
+				bad = append(bad, "repo-uuid-shared\ttwo repos created concurrently share a root uuid")
+			}
+			dump := datastore.VerifDump(append(roots, w.root)...)
+			vids := map[uint32]string{}
+			rids := map[uint32]string{}
+			for _, r := range dump.Repos {
+				if prev, dup := rids[uint32(r.ID)]; dup {
+					bad = append(bad, fmt.Sprintf("repo-id-shared\trepos %s and %s share repo id %d", prev, r.Root, r.ID))
+				}
+				rids[uint32(r.ID)] = r.Root
+				for _, n := range r.Nodes {
+					if prev, dup := vids[uint32(n.Version)]; dup {
+						bad = append(bad, fmt.Sprintf("version-id-shared\tnodes %s and %s share version id %d", prev, n.UUID, n.Version))
+					}
+					vids[uint32(n.Version)] = n.UUID
+				}
+			}
+			return
+		}})
 	sc = append(sc, c11Scenario{name: "S4c:labelmap:cleave||cleave:same-body", setup: func() (*c11World, error) {
 		w, err := lmWorld()
 		if err == nil {
